@@ -1,6 +1,7 @@
 import Driver.Seg
 import Driver.Neg
 import Driver.Store
+import Driver.Wire
 /- Line-protocol driver: `driver <topic>` reads one op per line on stdin, prints one line per op. -/
 open Driver
 
@@ -23,4 +24,5 @@ def main (args : List String) : IO UInt32 := do
   | ["seg"] => loop stdin stdout Driver.Seg.step {}; return 0
   | ["neg"] => loop stdin stdout Driver.Neg.step (); return 0
   | ["store"] => loop stdin stdout Driver.Store.step {}; return 0
+  | ["wire"] => loop stdin stdout Driver.Wire.step {}; return 0
   | _ => IO.eprintln "usage: driver <topic>"; return 2
